@@ -269,9 +269,38 @@ func state(s *sl) (string, il.VerifSkipDump[int], []int) {
 		vlib.Hash(d.Vals), vlib.Ints(d.Heights), d.Level, d.Size, d.HeaderH, chains(d.Chains)), d, vals
 }
 
+// Peek builds its "list is empty" error in place (no sentinel, no constructor), so the reference is
+// obtained from the library itself: the error Peek returns on a freshly made empty list. An error is
+// "empty" iff it reads the same as that one — whatever the wording is.
+var emptyRef struct {
+	done bool
+	msg  string
+	ok   bool
+}
+
+func isEmptyErr(err error) bool {
+	if !emptyRef.done {
+		emptyRef.done = true
+		if p := vlib.Catch(func() {
+			if _, e := il.NewSkipList[int](cmpOf("nat")).Peek(); e != nil {
+				emptyRef.msg, emptyRef.ok = e.Error(), true
+			}
+		}); p != "" {
+			emptyRef.ok = false
+		}
+	}
+	if !emptyRef.ok {
+		return false
+	}
+	if _, _, idx := vlib.IdxErr(err); idx {
+		return false
+	}
+	return err.Error() == emptyRef.msg
+}
+
 func okv(v int, err error) string {
 	if err != nil {
-		if err.Error() == "跳表为空" {
+		if isEmptyErr(err) {
 			return "err:empty"
 		}
 		return vlib.Err(err)
